@@ -66,6 +66,18 @@ pub fn gen_case(r: &mut Rng, for_c02: bool, big_prefix: Option<u8>) -> Case {
             top.addresses.push((written, *len));
         }
     }
+    if !for_c02 && !top.addresses.is_empty() && r.chance(1, 4) {
+        // overlapping prefixes: a wider one that covers the first subnet, written before or after it (the first one listed
+        // that contains the receiving address is the matched subnet)
+        let (a, l) = top.addresses[0];
+        let wl = l - r.range(1, 3) as u8;
+        let wide = (a & (u32::MAX << (32 - wl as u32)), wl);
+        if r.bool() {
+            top.addresses.insert(0, wide);
+        } else {
+            top.addresses.insert(1, wide);
+        }
+    }
     if r.chance(1, 8) {
         top.addresses.clear();
     }
